@@ -55,21 +55,28 @@ MinMaxEvOK(e) ==
       [] OTHER -> (PlainTy(e) => PlainOK(e)) /\ (e.skip => SkipOK(e))
 
 (* quantile_axis_skipnan_mut: per lane the plain quantile of the kept elements, or the missing value *)
+QSkipFrameOK(e) ==
+    LET ax == e.axis + 1 IN
+       \* C03 for this routine: lanes keep their multisets, nothing else changes
+       /\ Len(e.mem0) = Len(e.mem1)
+       /\ LET A == AddrSet(e.g) IN \A c \in 0..(Len(e.mem0) - 1) : c \notin A => Cell(e.mem1, c) = Cell(e.mem0, c)
+       /\ \A t \in 0..(NumLanes(e.g, ax) - 1) :
+             LET v == LaneOf(e.g, ax, t) IN SameBag(VLane(e.mem0, v), VLane(e.mem1, v))
 QSkipEvOK(e) ==
     LET ax == e.axis + 1
         keptOf(lane) == SelectSeq(lane, LAMBDA v : v # e.missing)
-    IN /\ e.out = "ok"
+    IN IF Has(e, "badq") /\ e.badq
+       THEN \* a request outside [0, 1] is rejected as the plain operation rejects it, whatever the data hold (all missing included)
+            e.out = "InvalidQuantile" /\ QSkipFrameOK(e)
+       ELSE
+       /\ e.out = "ok"
        /\ e.rshape = RemoveAt(e.g.shape, ax)
        /\ Len(e.res) = Len(e.lanes)
        /\ \A t \in DOMAIN e.lanes :
              LET k == keptOf(e.lanes[t]) IN
              IF Len(k) = 0 THEN e.res[t] = e.missing
              ELSE e.res[t] # e.missing /\ QuantileValueOK(k, e.qis[t], e.strat, e.res[t], e.ty \in {"f64", "opt_n64"})
-       \* C03 for this routine: lanes keep their multisets, nothing else changes
-       /\ Len(e.mem0) = Len(e.mem1)
-       /\ LET A == AddrSet(e.g) IN \A c \in 0..(Len(e.mem0) - 1) : c \notin A => Cell(e.mem1, c) = Cell(e.mem0, c)
-       /\ \A t \in 0..(NumLanes(e.g, ax) - 1) :
-             LET v == LaneOf(e.g, ax, t) IN SameBag(VLane(e.mem0, v), VLane(e.mem1, v))
+       /\ QSkipFrameOK(e)
 
 EventOK(e) ==
     CASE e.ev = "minmax"      -> MinMaxEvOK(e)
